@@ -24,7 +24,7 @@ FACTORS = dict(
     resample=["mult", "syst"],
     clustering=[True, False],
     normalize=[True, False],
-    cluster_every=[1, 2, 3, 5],
+    cluster_every=[1, 2, 3, 5, 50],
     n_max_clusters=[None, 1, 2, 4],
     split_threshold=[0.5, 1.0, 2.0],
     metric=["ess", "vv0.1", "vv0.25", "vv1.0"],
@@ -33,7 +33,9 @@ FACTORS = dict(
     evalmode=["scalar", "vector", "blobs"],
     boundary=["none", "periodic", "reflective", "mixed"],
     pool=[None, "simpool", 1, 4],
-    save_every=[None, 1, 3],
+    save_every=[None, 1, 3, 1000],
+    ess_ratio=[0.5, 2.0, 8.0],
+    output_label=[None, "run-1"],
     d=[1, 2, 4],
     N=["default", 16, 64],
     target=["gauss", "bimodal", "expedge", "minor_mode"],
@@ -83,6 +85,9 @@ def row_to_case(row, seed):
         tgt["blobs"] = 1
     cfg = dict(sample=row["sample"], resample=row["resample"], clustering=row["clustering"], normalize=row["normalize"], cluster_every=row["cluster_every"],
                n_max_clusters=row["n_max_clusters"], split_threshold=row["split_threshold"], random_state=seed % 1000)
+    cfg["ess_ratio"] = row.get("ess_ratio", 2.0)
+    if row.get("output_label"):
+        cfg["output_label"] = row["output_label"]
     if row["metric"] != "ess":
         cfg["volume_variation"] = float(row["metric"][2:])
     if row["n_steps"] is not None:
